@@ -571,6 +571,12 @@ def gen_shape(rng, cx=False):
         c = rng.uniform(size=sc) > 0.5
         for argnum in (1, 2):
             yield case("where", [c, A(rng, sx, "any", cx), A(rng, sy, "any", cx)], argnum=argnum)
+    # the (float) condition itself is the differentiated argument: registered non-differentiable, the
+    # derivative is an exact zero of the argument's (reverse) / the output's (forward) space
+    for sc in ((), (3,), (2, 3), (1, 3), (2, 1)):
+        yield case("where", [A(rng, sc, "any", False), A(rng, (2, 3), "any", cx), A(rng, (2, 3), "any", cx)], argnum=0, tags=["traced_condition"])
+    yield case("where", [scal(rng, "any", False), A(rng, (2, 3), "any", cx), scal(rng, "any", cx)], argnum=0, tags=["traced_condition"])
+    yield case("where", [A(rng, (3,), "any", False), scal(rng, "any", cx), A(rng, (2, 2, 3), "any", cx)], argnum=0, tags=["traced_condition"])
     c = rng.uniform(size=(2, 3)) > 0.5
     yield case("where", [c, scal(rng, "any", cx), A(rng, (2, 3), "any", cx)], argnum=1, tags=["scalar_branch"])
     yield case("where", [c, A(rng, (2, 3), "any", cx), scal(rng, "any", cx)], argnum=2, tags=["scalar_branch"])
